@@ -68,8 +68,21 @@ func (s *sim) ctxDying(h *half) bool {
 func (s *sim) coinRisk(a Action) bool {
 	in := s.liveIn()
 	linesWaiting := s.pendingLines() > 0
+	// an input half that is still on its way in (parked at or inside its
+	// admission section) will reach its first select later
+	var arriving []*half
+	for _, at := range s.atts {
+		if at.in != nil && !at.returned && !at.in.attachedR && !at.in.doneR {
+			arriving = append(arriving, at.in)
+		}
+	}
 	switch a.K {
 	case "enter":
+		for _, h := range arriving {
+			if s.ctxDying(h) {
+				return true
+			}
+		}
 		return in != nil && !in.proxyEnded && s.ctxDying(in)
 	case "cancel":
 		at := s.att(a.A)
@@ -99,10 +112,8 @@ func (s *sim) coinRisk(a Action) bool {
 		if !s.cfg.AutoDrain && in != nil && s.liveOut() != nil {
 			return true // two closure notices would race for the operator's next receive
 		}
-		for _, at := range s.atts {
-			if at.in != nil && !at.returned && (at.in.site == "" || at.in.site == "admit") {
-				return true
-			}
+		if len(arriving) > 0 {
+			return true
 		}
 		return in != nil && !in.proxyEnded && linesWaiting
 	case "start_in", "start_io":
@@ -130,8 +141,21 @@ func (s *sim) precond(a Action) error {
 			}
 		}
 	case "grant":
-		if s.busy != nil {
+		if a.S == "log" {
+			h := s.half(a.A, a.D)
+			if h == nil || h.logPark == nil {
+				return errors.New("not parked in a log call")
+			}
+			if s.busy != h {
+				return errors.New("another lock section is in progress")
+			}
+			return nil
+		}
+		if s.busy != nil && s.busy.logPark == nil {
 			return errors.New("a lock section is in progress")
+		}
+		if len(s.busyStack) >= 3 {
+			return errors.New("too many nested lock sections")
 		}
 		if a.S == "shutdown" {
 			if s.shutPark == nil {
@@ -231,6 +255,19 @@ func (s *sim) apply(a Action) {
 			return
 		}
 		h := s.half(a.A, a.D)
+		if a.S == "log" {
+			p := h.logPark
+			h.logPark = nil
+			for i, q := range s.parks {
+				if q == p {
+					s.parks = append(s.parks[:i], s.parks[i+1:]...)
+					break
+				}
+			}
+			s.probes["log_window_explored"]++
+			close(p.ch)
+			return
+		}
 		p := h.park
 		h.park = nil
 		for i, q := range s.parks {
@@ -240,6 +277,8 @@ func (s *sim) apply(a Action) {
 			}
 		}
 		s.busy = h
+		s.busyStack = append(s.busyStack, h)
+		h.logParked = false
 		if a.S == "admit" {
 			h.site = "admitting"
 			h.admitStep = s.step
@@ -305,7 +344,7 @@ func (s *sim) apply(a Action) {
 	case "read_done":
 		at := s.att(a.A)
 		if a.S != "" {
-			s.fault("read_"+a.S)
+			s.fault("read_" + a.S)
 			if len(a.B) > 0 {
 				s.probes["data_with_terminal_error"]++
 			}
@@ -321,7 +360,7 @@ func (s *sim) apply(a Action) {
 	case "write_done":
 		at := s.att(a.A)
 		if a.S != "" {
-			s.fault("write_"+a.S)
+			s.fault("write_" + a.S)
 		}
 		at.w.complete(a.S)
 	case "flush_done":
